@@ -378,6 +378,11 @@ class TapeRecorder(object):
 
             def decorated_function(*args, **kwargs):
                 if self.in_playback_mode:
+                    # An operation of a skipped class (the way to nest operations) is not recorded, hence it is not part
+                    # of a replayed operation either: its result must not be captured as the replayed operation's output
+                    playback_cls = args[0] if class_function else type(args[0])
+                    if self._classes_recording_params.get(playback_cls, RecordingParameters()).skipped:
+                        return func(*args, **kwargs)
                     return self._execute_operation_func(func, args, kwargs)
 
                 if not self.recording_enabled:
